@@ -1,13 +1,14 @@
 /- driver engine `kv`: C11 model (MW.Model.KVSys) + spec (MW.Spec.KV) behind the line protocol
    of go/cmd/harness/eng_kv.go -/
-import MW.Model.KVSys
-import MW.Spec.KV
+import MW.Model.KVHandles
+import MW.Spec.KVX
 namespace MW.Drv.Kv
 open MW MW.KV
 
 structure St where
-  m : Model.KV.Sys := {}
-  s : Spec.KV.Sys := {}
+  m : Model.KV.SysX := {}
+  s : Spec.KV.SysX := {}
+  ooc : Bool := false      -- the specification declared the history out of contract: model column only from here on
 def init : St := {}
 
 def parsePath (t : String) : Option Path :=
@@ -86,6 +87,7 @@ def showErr : Err → String
   | .illegalPath => "err:illegal-path"
   | .writeNotAllowed => "err:write-not-allowed"
   | .fuel => "err:model-out-of-fuel"
+  | .released => "err:released"
 
 def optTok : Option Bytes → String
   | none => "-"
@@ -110,6 +112,7 @@ def showObs : Obs → String
   | .names ns => listTok ns.length (ns.map Hex.encodeTok)
   | .steps ss => " ".intercalate (ss.map fun s => (if s.1 then "T:" else "F:") ++ optTok s.2.1 ++ ":" ++ optTok s.2.2)
   | .unspecified => "unspecified"
+  | .outOfContract => "out-of-contract"
 
 /-- `hasf S P`: tx.FetchBucket(meta of path P) != nil — tied by correspondence only (no spec column) -/
 def hasFetch (st : St) (sl : String) (pt : String) : String :=
@@ -120,13 +123,49 @@ def hasFetch (st : St) (sl : String) (pt : String) : String :=
     let name := p.getLast?.getD []
     let run (tx : Model.KV.Tx) : String := if (tx.fetchBucket paths name p.length).isSome then "yes" else "no"
     match slot with
-    | .w => match st.m.w with
+    | .w => match st.m.base.w with
       | none => "no-tx"
-      | some bt => run { readOnly := false, db := st.m.db, b := bt }
-    | .r => match st.m.reader with
+      | some bt => run { readOnly := false, db := st.m.base.db, b := bt }
+    | .r => match st.m.base.reader with
       | some snap => run { readOnly := true, db := snap }
       | none => "no-tx"
   | _, _ => "bad-op"
+
+/-- the extended op lines: `meta S M P`, `fetch S H M`, `keep S H P`, `via H <data op line>`,
+    `dead <data op line>`, `deadvia H <data op line>` (paths of the last three relative to the handle /
+    issued through the ended read transaction) -/
+def parseOpX (args : List String) : Option OpX :=
+  match args with
+  | ["meta", sl, m, p] => do
+    let s ← parseSlot sl
+    let m ← m.toNat?
+    let p ← parsePath p
+    some (.getMeta s m p)
+  | ["fetch", sl, h, m] => do
+    let s ← parseSlot sl
+    let h ← h.toNat?
+    let m ← m.toNat?
+    some (.fetch s h m)
+  | ["keep", sl, h, p] => do
+    let s ← parseSlot sl
+    let h ← h.toNat?
+    let p ← parsePath p
+    some (.keep s h p)
+  | "via" :: h :: rest => do
+    let h ← h.toNat?
+    let op ← parseOp rest
+    some (.via h op)
+  | "dead" :: rest => (parseOp rest).map .dead
+  | "deadvia" :: h :: rest => do
+    let h ← h.toNat?
+    let op ← parseOp rest
+    some (.deadVia h op)
+  | _ => (parseOp args).map .base
+
+/-- the slot whose Go-map order makes `entries` / `names` results order-free -/
+def slotOfX : OpX → Option Slot
+  | .base op | .via _ op => Model.KV.slotOf op
+  | _ => none
 
 def step (st : St) (args : List String) : St × String :=
   match args with
@@ -139,16 +178,17 @@ def step (st : St) (args : List String) : St × String :=
     | some w, some n => (st, s!"ok {w * n}\tok {w * n}")
     | _, _ => (st, "bad-op")
   | _ =>
-  match parseOp args with
+  match parseOpX args with
   | none => (st, "bad-op")
   | some op =>
     let (m', mo) := st.m.step op
     let (s', so) := st.s.step op
     -- results read inside a write transaction whose order comes from a Go map are compared sorted
-    let mo' := if Model.KV.slotOf op == some Slot.w then mo.canon else mo
-    let out := match so with
+    let mo' := if slotOfX op == some Slot.w then mo.canon else mo
+    let ooc := st.ooc || so == .outOfContract
+    let out := if ooc then showObs mo' else match so with
       | .unspecified => showObs mo'
       | _ => showObs mo' ++ "\t" ++ showObs so
-    ({ m := m', s := s' }, out)
+    ({ m := m', s := s', ooc := ooc }, out)
 
 end MW.Drv.Kv
